@@ -46,6 +46,10 @@ func c07Parents() []c07Parent {
 		{Name: "p1+p2-nodefault", Policies: []string{"p1", "p2", "creator"}, mk: mk(map[string]interface{}{"policies": []string{"p1", "p2", "creator"}, "no_default_policy": true, "ttl": "2h"})},
 		{Name: "sudo-creator", Policies: []string{"default", "p1", "sudocreator"}, Sudo: true, mk: mk(map[string]interface{}{"policies": []string{"p1", "sudocreator"}, "ttl": "2h"})},
 		{Name: "use-limited", Policies: []string{"default", "p1", "creator"}, Limited: true, mk: mk(map[string]interface{}{"policies": []string{"p1", "creator"}, "ttl": "2h", "num_uses": 5})},
+		// a use-limited parent whose creation request is its FINAL use (the entry then carries
+		// the revocation-pending marker instead of a positive count), with and without sudo
+		{Name: "use-limited-final-use", Policies: []string{"default", "p1", "creator"}, Limited: true, mk: mk(map[string]interface{}{"policies": []string{"p1", "creator"}, "ttl": "2h", "num_uses": 1})},
+		{Name: "use-limited-final-use-sudo", Policies: []string{"default", "p1", "sudocreator"}, Sudo: true, Limited: true, mk: mk(map[string]interface{}{"policies": []string{"p1", "sudocreator"}, "ttl": "2h", "num_uses": 1})},
 		{Name: "batch", Policies: []string{"default", "p1", "creator"}, Batch: true, mk: mk(map[string]interface{}{"policies": []string{"p1", "creator"}, "ttl": "2h", "type": "batch"})},
 	}
 }
@@ -468,7 +472,14 @@ func TestVerifC07(t *testing.T) {
 	}
 	// ---------------- logins ----------------
 	if only == "" || only == "L" {
-		for _, ps := range subsets([]string{"default", "p1", "root", "response-wrapping", "control-group"}) {
+		// every subset of the canonical names, plus non-canonical spellings of the two
+		// names a login must never yield (the token store normalises names by trimming
+		// and lower-casing, so a check made before that normalisation misses them)
+		loginSets := subsets([]string{"default", "p1", "root", "response-wrapping", "control-group"})
+		for _, sp := range []string{"Root", "ROOT", " root", "root ", "\troot", "rOOt", "Response-Wrapping", " response-wrapping", "RESPONSE-WRAPPING"} {
+			loginSets = append(loginSets, []string{sp}, []string{"p1", sp}, []string{sp, "default"})
+		}
+		for _, ps := range loginSets {
 			for _, ttl := range []int{0, 600, 100000 * 3600} {
 				for _, typ := range []logical.TokenType{logical.TokenTypeDefault, logical.TokenTypeService, logical.TokenTypeBatch} {
 					for _, period := range []int{0, 1200} {
